@@ -137,22 +137,23 @@ func lapackRows3() []*lroutine {
 	// ---- copies, scaling, plane rotations, small utilities ----
 	add(row("Dlacpy", lflag("uplo", blas.Upper, "lapack: bad Uplo", 'U', 'L', 'A'), ldim("m", "n"), lmat("a", m, n), lmat("b", m, n)))
 	add(row("Dlaset", lflag("uplo", blas.Upper, "lapack: bad Uplo", 'U', 'L', 'A'), ldim("m", "n"), lscalar("alpha", 2), lscalar("beta", 3), lmat("a", m, n)).
-		mod("uplo", func(a *larg) { a.noFault = true })) // "if uplo is otherwise, all of the elements of A are set"
+		mod("uplo", func(a *larg) { a.noFault = true }). // "if uplo is otherwise, all of the elements of A are set"
+		also("alpha", 0).also("beta", 0))
 	add(row("Dlascl", lflag("kind", lapack.General, "lapack: bad MatrixType", byte(lapack.General), byte(lapack.UpperTri), byte(lapack.LowerTri)),
-		intv("kl", cst(0)), intv("ku", cst(0)), lscalar("cfrom", 2), lscalar("cto", 3), ldim("m", "n"), lmat("a", m, n)))
+		intv("kl", cst(0)), intv("ku", cst(0)), lscalar("cfrom", 2), lscalar("cto", 3), ldim("m", "n"), lmat("a", m, n)).also("cto", 2, 0))
 	add(row("Iladlc", ldim("m", "n"), lmat("a", m, n)))
 	add(row("Iladlr", ldim("m", "n"), lmat("a", m, n)))
 	add(row("Dlagtm", fTrans3(), ldim("m", "n"), lscalar("alpha", 1), lvec("dl", plus(m, -1)), lvec("d", m), lvec("du", plus(m, -1)), lmat("b", m, n),
-		lscalar("beta", 1), lmat("c", m, n)))
+		lscalar("beta", 1), lmat("c", m, n)).also("alpha", 0, -1).also("beta", 0, -1))
 	cs := ifEq("side", 'L', plus(m, -1), n1)
 	add(row("Dlasr", fSide(), lflag("pivot", lapack.Variable, "lapack: bad Pivot", byte(lapack.Variable), byte(lapack.Top), byte(lapack.Bottom)), fDirect(),
 		ldim("m", "n"), lvec("c", cs), lvec("s", cs), lmat("a", m, n)).menu(0, 1, 2, 4))
 	add(row("Dlasrt", lflag("s", lapack.SortIncreasing, "lapack: bad Sort", byte(lapack.SortIncreasing), byte(lapack.SortDecreasing)), ldim("n"), lvec("d", n)))
 	add(row("Dlapll", ldim("n"), strided("x", "incX", n), incArg("incX", "lapack: incX <= 0"), strided("y", "incY", n), incArg("incY", "lapack: incY <= 0")))
-	add(row("Drscl", ldim("n"), lscalar("a", 2), strided("x", "incX", n), incArg("incX", "lapack: incX <= 0")))
-	add(row("Dlassq", ldim("n"), strided("x", "incx", n), incArg("incx", "lapack: incX <= 0"), lscalar("scale", 1), lscalar("sumsq", 1)))
+	add(row("Drscl", ldim("n"), lscalar("a", 2), strided("x", "incX", n), incArg("incX", "lapack: incX <= 0")).also("a", 1))
+	add(row("Dlassq", ldim("n"), strided("x", "incx", n), incArg("incx", "lapack: incX <= 0"), lscalar("scale", 1), lscalar("sumsq", 1)).also("scale", 0))
 	add(row("Dlarfg", ldim("n"), lscalar("alpha", 2), strided("x", "incX", n1), incArg("incX", "lapack: incX <= 0")).
-		emptyIf(func(e *lenv) bool { return e.g("n") <= 1 }))
+		emptyIf(func(e *lenv) bool { return e.g("n") <= 1 }).also("alpha", 0))
 	add(row("Dlacn2", ldim("n"), lvec("v", n), lvec("x", n), ivec("isgn", n, "lapack: insufficient length of isgn"), lscalar("est", 0), intv("kase", cst(0)),
 		raw("isave", func(*lenv) reflect.Value { return reflect.ValueOf(&[3]int{}) })).
 		mod("n", func(a *larg) {
